@@ -201,6 +201,15 @@ def generate(rng, tier, cls):
                                        'shared_reader']),
                     'stream': rng.choice(LOAD_STREAMS)})
 
+    if rng.chance(0.06):
+        # a diff that names a codec which does not exist / is no text codec:
+        # that file cannot be analysed, the others still are
+        ops.append({'op': 'set', 'tree': tn,
+                    'path': [rng.below(nch), rng.below(3)],
+                    'attr': 'diff_encoding',
+                    'value': rng.choice(['utf-99', 'hex', 'rot13', 'base64',
+                                         'undefined', 'nope'])})
+
     for _ in range(rng.randint(2, 8)):
         k = rng.below(10)
 
